@@ -156,6 +156,15 @@ template <class T, size_t... D> struct Uni : UniverseBase {
         if (f < 0) f = 0; if (f + span > N - 1) f = N - 1 - span;
         s.f[k] = f; s.l[k] = f + span + 1;
     }
+    // reversed-order source: same elements visited from the high end with a negative step (last must stay >= 0)
+    void maybe_reverse(const Step &st, Sel<R> &s, uint32_t salt) const {
+        if (R != 1) return;
+        uint64_t hh = mix2(((uint64_t)st.a[A_S0 + 2] << 8) | salt, 0x4e6);
+        if (hh % 4 != 0) return;
+        int lo = s.f[0], hi = s.f[0] + (s.ext[0] - 1) * s.s[0], stp = s.s[0];
+        if (lo - stp < 0) return;                       // the end bound lo-stp would be negative, i.e. mean something else
+        s.f[0] = hi; s.s[0] = -stp; s.l[0] = lo - stp;
+    }
     // apply form (pinned integer axis / all axis) to a selection; returns the library arguments
     void build_args(Sel<R> &s, int form, uint32_t enc, seq *q, int *fixi) const {
         int ia = form_int_axis(R, form), aa = form_all_axis(R, form);
@@ -163,11 +172,11 @@ template <class T, size_t... D> struct Uni : UniverseBase {
             if (k == ia) { s.ext[k] = 1; s.s[k] = 1; s.l[k] = s.f[k] + 1; fixi[k] = s.f[k]; }
             else fixi[k] = 0;
             if (k == aa) { s.f[k] = 0; s.s[k] = 1; s.ext[k] = dims[k]; s.l[k] = dims[k]; }
-            int l = s.l[k];
-            // documented last-relative encodings of `last`: -1 == N, l-N-1 in general
+            int l = s.l[k], f = s.f[k];
+            // documented end-relative encodings: last == -1 means N, a negative bound b means b+N+1 (for first and last alike)
             uint32_t e = (enc >> (2 * k)) & 3;
-            if (e == 1 && l == dims[k]) l = -1; else if (e == 2) l = l - dims[k] - 1;
-            q[k] = seq(s.f[k], l, s.s[k]);
+            if (e == 1 && l == dims[k]) l = -1; else if (e == 2) l = l - dims[k] - 1; else if (e == 3) { l = l - dims[k] - 1; f = f - dims[k] - 1; }
+            q[k] = seq(f, l, s.s[k]);
         }
     }
 
@@ -220,6 +229,7 @@ template <class T, size_t... D> struct Uni : UniverseBase {
         seq q[4] = {seq(0, 1), seq(0, 1), seq(0, 1), seq(0, 1)}; int fixi[4] = {0, 0, 0, 0};
         build_args(d, form, st.a[A_X], q, fixi);
         Sel<R> s1, s2; decode_src(st, A_S0, d, s1, 1); decode_src(st, A_S0, d, s2, 2);
+        maybe_reverse(st, s1, 1);
         seq q1[4] = {seq(0, 1), seq(0, 1), seq(0, 1), seq(0, 1)}, q2[4] = {seq(0, 1), seq(0, 1), seq(0, 1), seq(0, 1)}; for (int k = 0; k < R; ++k) { q1[k] = seq(s1.f[k], s1.l[k], s1.s[k]); q2[k] = seq(s2.f[k], s2.l[k], s2.s[k]); }
         T sc = op == 4 ? pow2val<T>(st.a[A_VAL]) : smallval<T>(st.a[A_VAL]);
         // model
@@ -291,7 +301,7 @@ template <class T, size_t... D> struct Uni : UniverseBase {
         seq q[4] = {seq(0, 1), seq(0, 1), seq(0, 1), seq(0, 1)}; int fixi[4] = {0, 0, 0, 0};
         build_args(d, 0, st.a[A_X], q, fixi);
         Sel<R> s1, s2;
-        if (coincident) { s1 = d; s2 = d; } else { decode_alias_src(st, A_S0, d, s1, 1); decode_alias_src(st, A_S0, d, s2, 2); }
+        if (coincident) { s1 = d; s2 = d; } else { decode_alias_src(st, A_S0, d, s1, 1); decode_alias_src(st, A_S0, d, s2, 2); maybe_reverse(st, s1, 1); }
         if (op == 4 && fk != 0) fk = 0;                        // divisors: the source elements themselves (powers of two)
         if (op == 3 && fk == 3) fk = 1;
         seq q1[4] = {seq(0, 1), seq(0, 1), seq(0, 1), seq(0, 1)}, q2[4] = {seq(0, 1), seq(0, 1), seq(0, 1), seq(0, 1)}; for (int k = 0; k < R; ++k) { q1[k] = seq(s1.f[k], s1.l[k], s1.s[k]); q2[k] = seq(s2.f[k], s2.l[k], s2.s[k]); }
